@@ -128,6 +128,75 @@ static char cmpchar(int e, int c) {
     return e ? '=' : 'Z';
 }
 
+/* expected value of one literal-shape form, from the C API results: c = compare(x, lit), c2 = compare(lit, x), e = equals */
+static int lit_expect(const char *op, int c, int c2, int e, int *isnum, int *num) {
+    *isnum = 0;
+    if (!strcmp(op, "lt")) return c < 0;   if (!strcmp(op, "le")) return c <= 0;
+    if (!strcmp(op, "gt")) return c > 0;   if (!strcmp(op, "ge")) return c >= 0;
+    if (!strcmp(op, "eq")) return e;       if (!strcmp(op, "ne")) return !e;
+    if (!strcmp(op, "rlt")) return c2 < 0; if (!strcmp(op, "rle")) return c2 <= 0;
+    if (!strcmp(op, "rgt")) return c2 > 0; if (!strcmp(op, "rge")) return c2 >= 0;
+    if (!strcmp(op, "req")) return e;      if (!strcmp(op, "rne")) return !e;
+    if (!strcmp(op, "lxl-lt")) return c2 < 0 && c < 0;   if (!strcmp(op, "lxl-le")) return c2 <= 0 && c <= 0;
+    if (!strcmp(op, "lxl-gt")) return c2 > 0 && c > 0;   if (!strcmp(op, "lxl-ge")) return c2 >= 0 && c >= 0;
+    if (!strcmp(op, "lxl-eq")) return e;
+    if (!strcmp(op, "xlx-lt")) return c < 0 && c2 < 0;   if (!strcmp(op, "xlx-le")) return c <= 0 && c2 <= 0;
+    if (!strcmp(op, "xlx-gt")) return c > 0 && c2 > 0;   if (!strcmp(op, "xlx-ge")) return c >= 0 && c2 >= 0;
+    if (!strcmp(op, "xlx-eq")) return e;
+    if (!strcmp(op, "xxl-lt")) return 0;                 if (!strcmp(op, "xxl-le")) return c <= 0;
+    if (!strcmp(op, "xxl-gt")) return 0;                 if (!strcmp(op, "xxl-ge")) return c >= 0;
+    if (!strcmp(op, "xxl-eq")) return e;
+    if (!strcmp(op, "cmp") || !strcmp(op, "compare")) { *isnum = 1; *num = c; return 0; }
+    if (!strcmp(op, "rcmp")) { *isnum = 1; *num = c2; return 0; }
+    return -1;
+}
+
+/* every pool value against every literal, through every compiled shape (functions generated into the script) */
+static void run_literal_shapes(JanetTable *env, JanetArray *pool, const int *skip, long *forms_out, long *calls_out) {
+    Janet fns = janet_wrap_nil();
+    janet_resolve(env, janet_csymbol("c03-litfns"), &fns);
+    if (!janet_checktype(fns, JANET_TUPLE)) return;
+    const Janet *ft = janet_unwrap_tuple(fns);
+    long forms = 0, calls = 0, reported = 0;
+    for (int32_t li = 0; li < janet_tuple_length(ft); li++) {
+        if (!janet_checktype(ft[li], JANET_FUNCTION)) continue;
+        for (int32_t i = 0; i < pool->count; i++) {
+            if (skip[i]) continue;
+            Janet args[1] = { pool->data[i] };
+            Janet r; JanetFiber *fib = NULL;
+            calls++;
+            if (janet_pcall(janet_unwrap_function(ft[li]), 1, args, &r, &fib) != JANET_SIGNAL_OK || !janet_checktype(r, JANET_TUPLE)) {
+                law("vm-literal-error", i, li, -1, ""); continue;
+            }
+            const Janet *rt = janet_unwrap_tuple(r);
+            int32_t rn = janet_tuple_length(rt);
+            if (rn < 2) continue;
+            Janet lit = rt[1];
+            int c = janet_compare(pool->data[i], lit), c2 = janet_compare(lit, pool->data[i]), e = janet_equals(pool->data[i], lit);
+            for (int32_t k = 2; k + 1 < rn; k += 2) {
+                if (!janet_checktype(rt[k], JANET_KEYWORD)) continue;
+                const char *code = (const char *) janet_unwrap_keyword(rt[k]);
+                const char *op = strchr(code, '/'); op = op ? op + 1 : code;
+                int isnum, num, want = lit_expect(op, c, c2, e, &isnum, &num);
+                forms++;
+                int ok;
+                if (isnum) ok = janet_checktype(rt[k + 1], JANET_NUMBER) && janet_unwrap_number(rt[k + 1]) == (double) num;
+                else if (want < 0) ok = 0;
+                else ok = janet_checktype(rt[k + 1], JANET_BOOLEAN) && janet_unwrap_boolean(rt[k + 1]) == want;
+                if (!ok) {
+                    nviol++;
+                    if (reported++ < 12) {
+                        printf("law vm-literal-operators %d %d -1 code=%s got=", i, li, code);
+                        ser(rt[k + 1], 0);
+                        if (isnum) printf(" want=%d\n", num); else printf(" want=%s\n", want ? "t" : "f");
+                    }
+                }
+            }
+        }
+    }
+    *forms_out = forms; *calls_out = calls;
+}
+
 static int run_pool(const char *path) {
     FILE *f = fopen(path, "rb");
     if (!f) { printf("error cannot-open-script\n"); return 2; }
@@ -194,6 +263,8 @@ static int run_pool(const char *path) {
         row[n] = 0;
         printf("capi %d %s\n", i, row);
     }
+    long litforms = 0, litcalls = 0;
+    run_literal_shapes(env, pool, skip, &litforms, &litcalls);
     /* ---- the laws, directly on implementation outputs */
     long pairs = 0, triples = 0;
     for (int32_t i = 0; i < n; i++) {
@@ -234,7 +305,7 @@ static int run_pool(const char *path) {
             if (janet_string_length(seen[a].p) == janet_string_length(seen[b].p) &&
                     !memcmp(seen[a].p, seen[b].p, janet_string_length(seen[a].p))) law("symbol-identity", (long) a, (long) b, -1, (const char *) seen[a].p);
         }
-    printf("summary n %d pairs %ld triples %ld vmcalls %ld symbols %zu violations %ld\n", n, pairs, triples, vmcalls, nseen, nviol);
+    printf("summary n %d pairs %ld triples %ld vmcalls %ld symbols %zu litforms %ld litcalls %ld violations %ld\n", n, pairs, triples, vmcalls, nseen, litforms, litcalls, nviol);
     return 0;
 }
 
